@@ -481,7 +481,7 @@ func (e *Exec) mapSet(m *Map, k, v Value) {
 func (e *Exec) lookup(ins *ssa.Lookup, x, k Value) Value {
 	switch x := x.(type) {
 	case Str:
-		return e.strIndex(x, k.(*Term))
+		return e.strIndex(x, idx64(k.(*Term), ins.Index.Type()))
 	case *Map:
 		e.sharedMapAccess(x, false)
 		ent := e.mapFind(x, k)
